@@ -184,13 +184,15 @@ def main():
                     break
             if not ok:
                 for cand in vs:
-                    hist = (cand.get("alt_case") or {}).get("history")
+                    ac = cand.get("alt_case") or {}
+                    hist = ac.get("history")
                     if not hist:
                         continue
                     v = cand
                     k = 2
                     while not ok:
-                        obs, ok = confirm({"history": hist[-k:]})
+                        hc = {"history": hist[-k:]}
+                        obs, ok = confirm({"_mount": ac["_mount"], "case": hc} if ac.get("_mount") else hc)
                         if k >= len(hist):
                             break
                         k *= 2
